@@ -879,7 +879,7 @@ impl<'p> Emitter<'p> {
             let target = cls.and_then(|r| self.class_decl.get(&r)).copied();
             let ns = self.pos();
             self.use_as(&p.name, target, true, Role::ClassRef);
-            let ne = self.pos();
+            let ne = ns + p.name.len();
             self.class_args(&p.name, (ns, ne), &p.args, &p.named);
             if let Some(c) = cls {
                 if c != rec {
